@@ -311,6 +311,103 @@ def wfx_section() -> str:
             f"def wfx_writes : List Write :=\n  [{ws}]\n\ndef wfx_parse_consts : List (List Char) := {strs(consts)}\n")
 
 
+# ---------------------------------------------------------------------------------------------
+# QCSchema molecule core: the key mapping of both directions
+
+QCS_EXCLUDED = {"masses", "mass_numbers", "fragments"}  # sub-keys of extra["molecule"] outside the modelled domain
+
+
+def _mol_key(node):
+    """the constant k of a `mol["k"]` inside node, if there is exactly one"""
+    ks = [n.slice.value for n in ast.walk(node) if isinstance(n, ast.Subscript) and isinstance(n.value, ast.Name) and n.value.id == "mol"
+          and isinstance(n.slice, ast.Constant)]
+    return ks[0] if len(set(ks)) == 1 else None
+
+
+@section
+def qcs_section() -> str:
+    _, tree = _src("json_qcschema")
+    d = _func(tree, "_dump_qcschema_molecule")
+    r = _func(tree, "_parse_topology_keys")
+    # writer: molecule_dict["key"] = expr
+    wassign = [(n.targets[0].slice.value, n.value) for n in walk(d) if isinstance(n, ast.Assign) and isinstance(n.targets[0], ast.Subscript)
+               and ast.unparse(n.targets[0].value) == "molecule_dict" and isinstance(n.targets[0].slice, ast.Constant)]
+    core_src = {"symbols": "data.atnums", "geometry": "data.atcoords", "charge": "data.charge", "mult": "data.spinpol", "name": "data.title",
+                "real": "data.atcorenums", "masses": "data.atmasses", "connectivity": "data.bonds", "fixSymmetry": "data.g_rot",
+                "provenance": "_dump_provenance"}
+    wk, exprs = {}, []
+    for field, needle in core_src.items():
+        hits = [(k, ast.unparse(v)) for k, v in wassign if needle in ast.unparse(v)]
+        if len(hits) != 1:
+            raise LookupError(f"QCSchema writer: {field}: {hits}")
+        wk[field] = hits[0][0]
+        exprs.append(("w:" + field, hits[0][1]))
+    wpass = []
+    for k, v in wassign:
+        src = ast.unparse(v)
+        for suf in ("", ".tolist()"):
+            if src.startswith("data.extra['molecule']['") and src.endswith("']" + suf) and src.count("[") == 2:
+                sub = src[len("data.extra['molecule']['"):-len("']" + suf)]
+                if sub not in QCS_EXCLUDED and sub != "unparsed":
+                    wpass.append((sub, k))
+    # reader
+    rk = {}
+    stmts = list(walk(r))
+    def find(pred, what):
+        hits = [n for n in stmts if pred(n)]
+        if len(hits) < 1:
+            raise LookupError("QCSchema reader: " + what)
+        return hits[0]
+    a = find(lambda n: isinstance(n, ast.Assign) and ast.unparse(n.targets[0]) == "atnums", "atnums")
+    rk["symbols"] = _mol_key(a.value)
+    exprs.append(("r:symbols", ast.unparse(a.value)))
+    a = find(lambda n: isinstance(n, ast.Assign) and ast.unparse(n.targets[0]) == "topology_dict['atcoords']", "atcoords")
+    rk["geometry"] = _mol_key(a.value)
+    exprs.append(("r:geometry", ast.unparse(a.value)))
+    a = find(lambda n: isinstance(n, ast.Assign) and ast.unparse(n.targets[0]) == "formal_charge" and _mol_key(n.value), "charge")
+    rk["charge"] = _mol_key(a.value)
+    a = find(lambda n: isinstance(n, ast.Assign) and ast.unparse(n.targets[0]) == "mult", "mult")
+    rk["mult"] = _mol_key(a.value)
+    a = find(lambda n: isinstance(n, ast.Assign) and ast.unparse(n.targets[0]) == "topology_dict['spinpol']" and "mult" in ast.unparse(n.value), "spinpol")
+    exprs.append(("r:mult", ast.unparse(a.value)))
+    for field, attr in (("name", "title"), ("masses", "atmasses"), ("connectivity", "bonds"), ("fixSymmetry", "g_rot")):
+        a = find(lambda n, attr=attr: isinstance(n, ast.Assign) and ast.unparse(n.targets[0]) == f"topology_dict['{attr}']" and _mol_key(n.value), attr)
+        rk[field] = _mol_key(a.value)
+    a = find(lambda n: isinstance(n, ast.Assign) and ast.unparse(n.targets[0]).startswith("atcorenums[") and _mol_key(n.targets[0]), "real")
+    rk["real"] = _mol_key(a.targets[0])
+    exprs.append(("r:real", ast.unparse(a)))
+    a = find(lambda n: isinstance(n, ast.Assign) and ast.unparse(n.targets[0]) == "topology_dict['nelec']", "nelec")
+    exprs.append(("r:nelec", ast.unparse(a.value)))
+    a = find(lambda n: isinstance(n, ast.Assign) and ast.unparse(n.targets[0]) == "extra_dict['provenance']", "provenance")
+    rk["provenance"] = _mol_key(a.value)
+    exprs.append(("r:provenance", ast.unparse(a.value)))
+    rpass = []
+    for n in stmts:
+        if (isinstance(n, ast.Assign) and isinstance(n.targets[0], ast.Subscript) and ast.unparse(n.targets[0].value) == "extra_dict"
+                and isinstance(n.targets[0].slice, ast.Constant)):
+            sub = n.targets[0].slice.value
+            src = ast.unparse(n.value)
+            k = _mol_key(n.value)
+            if k and src in (f"mol['{k}']", f"np.array(mol['{k}'])") and sub not in QCS_EXCLUDED and sub != "provenance":
+                rpass.append((sub, k))
+    a = find(lambda n: isinstance(n, ast.Assign) and ast.unparse(n.targets[0]) == "topology_dict['bonds']", "bonds")
+    bonds_expr = ast.unparse(a.value)
+    known = next(n.value for n in stmts if isinstance(n, ast.Assign) and ast.unparse(n.targets[0]) == "molecule_keys")
+    known = [e.value for e in known.elts]
+    order = ["symbols", "geometry", "charge", "mult", "name", "real", "masses", "connectivity", "fixSymmetry", "provenance"]
+
+    def keys(name, k, p):
+        return (f"def {name} : Qcs.Keys :=\n  ⟨" + ", ".join(chars(k[f]) for f in order) + ",\n   ["
+                + ", ".join(f"({chars(a)}, {chars(b)})" for a, b in p) + "]⟩\n")
+
+    # the reader lists the pass-through keys in its own order: the model compares the tables as written by the writer
+    rpass_sorted = [x for x in wpass if x in rpass] + [x for x in rpass if x not in wpass]
+    return (keys("qcsW", wk, wpass) + "\n" + keys("qcsR", rk, rpass_sorted) + "\n"
+            + f"def qcsKnown : List (List Char) := {strs(known)}\n\n"
+            + f"def qcsBondsExpr : List Char := {chars(bonds_expr)}\n\ndef qcsReshapes : Bool := {lb('.reshape(-1, 3)' in bonds_expr)}\n\n"
+            + "def qcsExprs : List (List Char × List Char) :=\n  [" + ",\n   ".join(f"({chars(a)}, {chars(b)})" for a, b in exprs) + "]\n")
+
+
 def build_gen() -> str:
     out = ["import Iodata.Gen.Layouts", "import Iodata.Model.Fmt.AllW", "namespace Iodata.Gen.LayoutsW", "open Iodata.Fmt", ""]
     for fn in SECTIONS:
